@@ -30,8 +30,10 @@ REQS = [
     ('en-GB', '\\LaTeX{} Wabfq\n', {}),
     ('en-GB', '\\begin{enumerate}\\item Wabgq \\begin{enumerate}\\item Wabhq\n', {}),
     ('en-GB', '\\item Wabiq\n', {'disabledCategories': 'CAT'}),
+    ('en-GB', 'Waaaq so dass Wabjq\n', {}),
+    ('en-GB', 'so dass Waaaq Wacaq\n', {}),
 ]
-SRV_ARGS = ['--lt-options', '~--disable SRVRULE --enable SRVON --zzopt', '--single-letters', 'a|I']
+SRV_ARGS = ['--lt-options', '~--disable SRVRULE --enable SRVON --zzopt', '--single-letters', 'a|I', '--replace', 'zzrepl.txt']
 _ref = {}
 
 
@@ -42,14 +44,14 @@ def workdir():
 _ask = [0]
 
 
-def ask(server, i):
+def ask(server, i, retry=True):
     lang, text, extra = REQS[i]
     d = server.dir
     # a fresh log file per request: a proofreader process that is still running for an
     # earlier request (possible under heavy load) cannot write into this one
     _ask[0] += 1
     log = os.path.join(d, 'srvlog-%d-%d.jsonl' % (os.getpid(), _ask[0]))
-    with open(os.path.join(d, 'plan.json'), 'w') as f:
+    with open(server.plan_file, 'w') as f:
         json.dump({'mode': 'flag_words', 'words': ['Wa', 'Wd'], 'log': log}, f)
     try:
         resp = server.request(text, lang, extra)
@@ -59,6 +61,8 @@ def ask(server, i):
     if os.path.exists(log):
         argv = [json.loads(l)['argv'] for l in open(log, encoding='utf-8')]
         os.unlink(log)
+    if not argv and isinstance(resp, dict) and resp.get('matches') and retry:
+        return ask(server, i, retry=False)      # log not there (seen once under heavy load): ask again
     return {'response': resp, 'proofreader_argv': argv}
 
 
